@@ -153,7 +153,7 @@ class ContractableBOSS(BaseClassifier):
         X, y = check_X_y(X, y, enforce_univariate=True, coerce_to_numpy=True)
 
         start_time = time.time()
-        self.time_limit = self.time_limit * 60
+        time_limit = self.time_limit * 60
         self.n_instances, _, self.series_length = X.shape
         self.n_classes = np.unique(y).shape[0]
         self.classes_ = class_distribution(np.asarray(y).reshape(-1, 1))[0][0]
@@ -188,11 +188,10 @@ class ContractableBOSS(BaseClassifier):
 
         rng = check_random_state(self.random_state)
 
-        if self.time_limit > 0:
-            self.n_parameter_samples = 0
+        n_parameter_samples = 0 if time_limit > 0 else self.n_parameter_samples
 
         while (
-            train_time < self.time_limit or num_classifiers < self.n_parameter_samples
+            train_time < time_limit or num_classifiers < n_parameter_samples
         ) and len(possible_parameters) > 0:
             parameters = possible_parameters.pop(
                 rng.randint(0, len(possible_parameters))
